@@ -8,7 +8,7 @@
 (* (sort without carrier, integer beyond TLC's range) is reported in the    *)
 (* `skip` component, never as a failure.                                    *)
 (***************************************************************************)
-EXTENDS Derived
+EXTENDS Substitution
 
 CONSTANT Cap             \* maximum number of interpretations per event
 
@@ -187,5 +187,95 @@ DerivedContract(e) ==
                    IN  ~DivZero(e.built, I, QDefault) /\ Eval(e.built, I, QDefault) # Named(e.name, vs, ts, e.p)}
     IN  IF shape # <<>> THEN Verdict(shape, <<>>, -1)
         ELSE Verdict(Fl("denotes_named_function", bad = {}), <<>>, IF bad = {} THEN -1 ELSE CHOOSE k \in bad : TRUE)
+
+\* ------------------------------------------------------------------ C12
+SeqSet(sq) == {sq[j] : j \in 1..Len(sq)}
+
+(* analyses of f: fv (names+sorts), atoms (terms), qf, sorts, custom sorts, six sizes *)
+AnalysesContract(e) ==
+    LET f == e.f
+        tf == TypeOf(f)
+        fvdef == FreeSyms(f)
+        structural ==
+            Fl("input_well_typed", tf # Ill) \o
+            Fl("free_symbols_exact", SeqSet(e.fv) = fvdef) \o
+            Fl("qf_exact", e.qf = IsQF(f)) \o
+            Fl("atoms_exact", tf # TBool \/ e.atoms_ok = FALSE \/ SeqSet(e.atoms) = Atoms(f)) \o
+            Fl("atoms_reported_for_bool", tf # TBool \/ e.atoms_ok) \o
+            Fl("sorts_exact", SeqSet(e.sorts) = SortsOf(f)) \o
+            Fl("custom_sorts_exact", SeqSet(e.csorts) = CustomSortsOf(f)) \o
+            Fl("size_tree", e.sizes[1] = TreeNodes(f)) \o
+            Fl("size_dag", e.sizes[2] = DagNodes(f)) \o
+            Fl("size_leaves", e.sizes[3] = Leaves(f)) \o
+            Fl("size_depth", e.sizes[4] = Depth(f)) \o
+            Fl("size_symbols", e.sizes[5] = SymbolsCount(f)) \o
+            Fl("size_bool_dag", e.sizes[6] = BoolDagNodes(f))
+    IN  IF structural # <<>> THEN Verdict(structural, <<>>, -1)
+        ELSE IF ~CanEval(f) \/ ~CanInterpret(AllSyms(f)) THEN Verdict(<<>>, <<"semantic_consequences">>, -1)
+        ELSE
+        \* semantic consequences named by the property, evaluated with the REPORTED sets
+        LET syms == SymSeq(AllSyms(f))
+            rep == {s.n : s \in SeqSet(e.fv)}
+            idx == InterpIdx(syms, Cap)
+            \* perturb every symbol not reported free: the value must not move
+            Perturb(I, k) == [nm \in DOMAIN I |->
+                                 IF nm \in rep THEN I[nm] ELSE InterpAt(syms, (k + 1) % Cardinality(idx), Cap)[nm]]
+            fvbad == {k \in idx : LET I == InterpAt(syms, k, Cap)
+                                  IN  ~DivZero(f, I, QDefault) /\ ~DivZero(f, Perturb(I, k), QDefault)
+                                      /\ Eval(f, I, QDefault) # Eval(f, Perturb(I, k), QDefault)}
+            atoms == e.atoms
+            Vec(I) == [j \in 1..Len(atoms) |-> Eval(atoms[j], I, QDefault)]
+            atbad == IF tf # TBool \/ ~IsQF(f) THEN {}
+                     ELSE {p \in idx \X idx :
+                              LET I1 == InterpAt(syms, p[1], Cap)
+                                  I2 == InterpAt(syms, p[2], Cap)
+                              IN  p[1] < p[2] /\ Vec(I1) = Vec(I2)
+                                  /\ ~DivZero(f, I1, QDefault) /\ ~DivZero(f, I2, QDefault)
+                                  /\ Eval(f, I1, QDefault) # Eval(f, I2, QDefault)}
+        IN  Verdict(Fl("value_depends_only_on_reported_free_symbols", fvbad = {}) \o
+                    Fl("truth_is_function_of_reported_atoms", atbad = {}), <<>>, -1)
+
+\* ------------------------------------------------------------------ C05
+(* out = substitute(f, keys[j] -> vals[j], interpretations) with strategy "MG" | "MS" *)
+SubstContract(e) ==
+    LET f == e.f
+        n == Len(e.keys)
+        s == [k \in SeqSet(e.keys) |-> e.vals[CHOOSE j \in 1..n : e.keys[j] = k]]
+        FI == [nm \in {e.interp[j].n : j \in 1..Len(e.interp)} |->
+                  LET d == e.interp[CHOOSE j \in 1..Len(e.interp) : e.interp[j].n = nm]
+                  IN  [params |-> d.params, body |-> d.body]]
+        typed == \A j \in 1..n : TypeOf(e.keys[j]) # Ill /\ TypeOf(e.keys[j]) = TypeOf(e.vals[j])
+        tf == TypeOf(f)
+        tout == TypeOf(e.out)
+        shape == Fl("output_well_typed", tout # Ill) \o
+                 Fl("same_type", tout = Ill \/ tout = tf) \o
+                 Fl("reported_type_out", tout = Ill \/ e.rty = tout)
+        exactfrag == InExactFragment(f) /\ \A j \in 1..n : InExactFragment(e.keys[j]) /\ InExactFragment(e.vals[j])
+        want == IF e.strategy = "MG" THEN MGS(f, s, FI) ELSE MSS(f, s, FI)
+        symkeys == \A j \in 1..n : e.keys[j].op = "symbol"
+        lemma_applies == symkeys /\ CaptureFree(f, s) /\ CanEval(f) /\ CanEval(e.out)
+                         /\ \A j \in 1..n : CanEval(e.vals[j])
+        syms == SymSeq({sy \in FreeSyms(f) \cup FreeSyms(e.out) \cup UNION {FreeSyms(e.vals[j]) : j \in 1..n}
+                           \cup {BVar(e.keys[j].n, e.keys[j].ty) : j \in {j \in 1..n : e.keys[j].op = "symbol"}} :
+                        sy.n \notin DOMAIN FI})
+        bad == {k \in InterpIdx(syms, Cap) :
+                   LET I0 == InterpAt(syms, k, Cap)
+                       I == Override(I0, FI)
+                       upd == [nm \in {e.keys[j].n : j \in 1..n} |->
+                                  Eval(e.vals[CHOOSE j \in 1..n : e.keys[j].n = nm], I, QDefault)]
+                       I2 == Override(I, upd)
+                   IN  ~DivZero(f, I2, QDefault) /\ Eval(e.out, I, QDefault) # Eval(f, I2, QDefault)}
+        \* applications of an interpreted symbol that the caller itself put into a replacement
+        \* term are not "applications of the formula": the clause is about f's own applications
+        valsmention == \E j \in 1..n : \E u \in SubTerms(e.vals[j]) : u.op = "function" /\ u.n \in DOMAIN FI
+        leftover == IF valsmention THEN {} ELSE {u \in SubTerms(e.out) : u.op = "function" /\ u.n \in DOMAIN FI}
+    IN  IF tf = Ill \/ ~typed THEN Verdict(<<>>, <<"ill_typed_input_or_map">>, -1)
+        ELSE IF e.res # "ok" THEN Verdict(<<"raises_on_type_correct_map">>, <<>>, -1)
+        ELSE IF shape # <<>> THEN Verdict(shape, <<>>, -1)
+        ELSE Verdict(Fl("exact_documented_replacement", ~exactfrag \/ e.out = want) \o
+                     Fl("interpreted_symbol_eliminated", leftover = {}) \o
+                     (IF lemma_applies THEN Fl("substitution_lemma", bad = {}) ELSE <<>>),
+                     IF lemma_applies THEN <<>> ELSE <<"substitution_lemma">>,
+                     IF lemma_applies /\ bad # {} THEN CHOOSE k \in bad : TRUE ELSE -1)
 
 =============================================================================
